@@ -639,6 +639,17 @@ func (d *Director) checkRegistry(op string) {
 			want++
 		}
 	}
+	// and each host is registered on exactly its latest live connection
+	var wantReg []string
+	for id, c := range d.W.Reg {
+		if c != nil && !c.Closed {
+			wantReg = append(wantReg, d.W.N(id)+"@"+c.Name)
+		}
+	}
+	sort.Strings(wantReg)
+	if got := d.W.Registry(); !sameStrs(got, wantReg) && d.W.Pool.NumRemotes() == want {
+		d.bad("C09", "registry", "a host is registered on a connection that is not its latest live one", "after %s: registry %v, model %v", op, got, wantReg)
+	}
 	if got := d.W.Pool.NumRemotes(); got != want {
 		d.bad("C09", "registry", "count of connected hosts differs from hosts with a live registered connection", "after %s: NumRemotes=%d, model %d", op, got, want)
 	}
@@ -647,6 +658,9 @@ func (d *Director) checkRegistry(op string) {
 // Advance lets simulated time pass.
 func (d *Director) Advance(g time.Duration) {
 	d.n++
+	if g >= 120*time.Second {
+		d.W.S.Fault("clock_jump_past_expiry_window")
+	}
 	d.W.S.Sleep(d.name, g)
 	d.logf("#%d advance %s", d.n, g)
 }
@@ -691,6 +705,7 @@ func (d *Director) Deposit(wl *Wallet, amount *big.Int) {
 // CloseConn closes the actor's current connection and waits until the pool has seen it.
 func (d *Director) CloseConn(c *Conn) {
 	d.n++
+	d.W.S.Fault("connection_closed")
 	d.W.CloseConn(c)
 	// the pool notices when the EOF marker is delivered and its serve loop returns
 	unreg := func() bool {
